@@ -99,6 +99,20 @@ Alloc(pid, d, ps) ==
   /\ bufs' = Append(bufs, [pid |-> pid, v |-> v, n |-> n, live |-> TRUE])
   /\ UNCHANGED <<devs, held, devUsed, crashed>>
 
+(* Allocate immediately followed by Free of one huge buffer (n pages): the two calls as one step, because the
+   intermediate page table is too large to log.  Virtual addresses are never reused, so this only moves the
+   cursor (across 2^31 / 2^32 / 2^33 bytes in the histories that use it); nothing else changes.  The harness
+   inspects the n pages between the two calls; the trace specification requires its findings (MemAllocTrace!TBurn).
+   (vown is not updated: it only matters for the deviation MirrorKeyedByVAddrOnly, fixed in the tree.) *)
+Burn(pid, d, n) ==
+  LET v == NextV(pid) IN
+  /\ ~crashed /\ n >= 1 /\ d \in DevIds /\ Actual(d)
+  /\ FitsPool({d}, n)
+  /\ \A i \in 0..1 : <<pid, v + i * (n - 1)>> \notin DOMAIN pt
+  /\ nextV' = [p \in DOMAIN nextV \cup {pid} |-> IF p = pid THEN v + n ELSE nextV[p]]
+  /\ bufs' = Append(bufs, [pid |-> pid, v |-> v, n |-> n, live |-> FALSE])
+  /\ UNCHANGED <<devs, out, limbo, vown, pt, held, devUsed, crashed>>
+
 (* Buddy allocator, as implemented: its free lists can contain a block that overlaps pages still handed out
    (Buddy.tla, MC_Buddy_impl.cfg), so a call (Allocate, Remap, Distribute, migration) obtains a page that is
    live, or the same page twice.  t is the resulting page table.  The history ends here: the set abstraction of
